@@ -44,6 +44,9 @@ pub enum Act {
     /// the user calls reset_address() on peripheral i (to the address it already has: "a new DP
     /// parameterization will take place once the device responds") — also while a request is outstanding
     ResetAddr(u8),
+    /// the user calls enter_operate() again on the running master (at any point of a DP cycle, also between
+    /// the transmission of a request and its reply)
+    EnterOperate,
 }
 
 impl Act {
@@ -67,6 +70,7 @@ impl Act {
             "Malformed" => Act::Malformed(num(s)[0]),
             "UserDiag" => Act::UserDiag(num(s)[0]),
             "ResetAddr" => Act::ResetAddr(num(s)[0]),
+            "EnterOperate" => Act::EnterOperate,
             "UserWrite" => Act::UserWrite(num(s)[0], num(s)[1]),
             "InputChange" => Act::InputChange(num(s)[0]),
             o => panic!("unknown action {o}"),
@@ -535,7 +539,7 @@ impl Exec {
         match a {
             Act::UserDiag(i) | Act::UserWrite(i, _) | Act::ResetAddr(i) => i < n && (i as usize) < self.rig.handles.len(),
             Act::AddLate => self.cfg.late_add && self.rig.handles.len() < self.cfg.rig.periphs.len(),
-            Act::LongPause => true,
+            Act::LongPause | Act::EnterOperate => true,
             Act::Answer if self.outstanding.is_none() => true, // "visit again"
             _ => self.outstanding.is_some(),
         }
@@ -550,6 +554,13 @@ impl Exec {
             self.log.push(format!("-- action {}", a.name()));
         }
         match a {
+            Act::EnterOperate => {
+                let rig = &mut self.rig;
+                if let Err(pn) = catch(|| rig.dp.enter_operate()) {
+                    self.panic_seen("DpMaster::enter_operate", pn);
+                }
+                return;
+            }
             Act::ResetAddr(i) => {
                 let addr = self.cfg.rig.periphs[i as usize].addr;
                 let rig = &mut self.rig;
@@ -1185,11 +1196,14 @@ pub struct W4World {
 /// answered, except that every 97th is lost, every 499th step is a power cycle of the slave and every
 /// 101st a user diagnostics request: counters that wrap after 2^8 / 2^16 requests or cycles, state that
 /// accumulates. Returns (steps executed, DP cycles completed); violations are reported by the monitors.
-pub fn endurance_run(cfg: &Arc<W4Cfg>, steps: u32) -> (u32, u64) {
+pub fn endurance_run(cfg: &Arc<W4Cfg>, steps: u32, faults: bool) -> (u32, u64) {
     let mut e = Exec::new(cfg);
     let mut done = 0;
     for k in 1..=steps {
-        let a = if k % 499 == 0 {
+        let a = if !faults {
+            // (fault-free variant: nothing ever resets per-peripheral sequence state)
+            Act::Answer
+        } else if k % 499 == 0 {
             Act::PowerCycle
         } else if k % 97 == 0 {
             Act::ReqLost
@@ -1208,8 +1222,9 @@ pub fn endurance_run(cfg: &Arc<W4Cfg>, steps: u32) -> (u32, u64) {
             break;
         }
         // keep the replay artefact of a late violation small: the path is not needed beyond its length
-        if e.path.len() > 4096 {
-            e.path.drain(..2048);
+        // (the hang watchdog renders the path before every callback: keep it short)
+        if e.path.len() > 64 {
+            e.path.drain(..32);
         }
     }
     (done, e.mon.cycles_completed)
